@@ -58,26 +58,35 @@ def burnSum (d : String) : State → List Op → Nat
 
 /-! ### monitor (Bool) -/
 
+/-- `p k v` for every binding of the table, read through lookups (on a table without duplicate
+keys — every parsed observation — this is `m.all`; on any table it only sees what `get?` sees) -/
+def allB {K V : Type} [DecidableEq K] (m : AMap K V) (p : K → V → Bool) : Bool :=
+  (AMap.keys m).all fun k => match AMap.get? m k with | some v => p k v | none => true
+
+/-- two tables answer every lookup alike -/
+def tableSame {K V : Type} [DecidableEq K] [BEq V] (a b : AMap K V) : Bool :=
+  (AMap.keys a ++ AMap.keys b).all fun k => AMap.get? a k == AMap.get? b k
+
 def wfB (s : State) : Bool :=
-  s.tokens.all (fun e => e.2.symbol == e.1 && AMap.get? s.minUnits e.2.minUnit == some e.1) &&
-  s.minUnits.all (fun e => match AMap.get? s.tokens e.2 with | some t => t.minUnit == e.1 | none => false)
+  allB s.tokens (fun sym t => t.symbol == sym && AMap.get? s.minUnits t.minUnit == some sym) &&
+  allB s.minUnits (fun m sym => match AMap.get? s.tokens sym with | some t => t.minUnit == m | none => false)
 
 def ownIdxB (s : State) : Bool :=
-  s.tokens.all (fun e => AMap.get? s.owners (e.2.owner, e.1) == some e.1) &&
-  s.owners.all (fun e => e.2 == e.1.2 &&
-    (match AMap.get? s.tokens e.1.2 with | some t => t.owner == e.1.1 | none => false))
+  allB s.tokens (fun sym t => AMap.get? s.owners (t.owner, sym) == some sym) &&
+  allB s.owners (fun k v => v == k.2 &&
+    (match AMap.get? s.tokens k.2 with | some t => t.owner == k.1 | none => false))
 
 def keepsB (pre post : State) : Bool :=
-  pre.tokens.all (fun e => match AMap.get? post.tokens e.1 with
-    | some t' => t'.symbol == e.2.symbol && t'.minUnit == e.2.minUnit && t'.scale == e.2.scale &&
-                 t'.initialSupply == e.2.initialSupply
+  allB pre.tokens (fun sym t => match AMap.get? post.tokens sym with
+    | some t' => t'.symbol == t.symbol && t'.minUnit == t.minUnit && t'.scale == t.scale &&
+                 t'.initialSupply == t.initialSupply
     | none => false) &&
-  pre.minUnits.all (fun e => AMap.get? post.minUnits e.1 == some e.2)
+  allB pre.minUnits (fun m sym => AMap.get? post.minUnits m == some sym)
 
-/-- every token of `pre` except `ex` is literally unchanged -/
+/-- every token of `pre` except `ex` is literally unchanged, and `post` has no other new token -/
 def tokensSameExcept (pre post : State) (ex : String) : Bool :=
-  pre.tokens.all (fun e => e.1 == ex || AMap.get? post.tokens e.1 == some e.2) &&
-  post.tokens.all (fun e => e.1 == ex || AMap.contains pre.tokens e.1)
+  allB pre.tokens (fun sym t => sym == ex || AMap.get? post.tokens sym == some t) &&
+  allB post.tokens (fun sym _ => sym == ex || AMap.contains pre.tokens sym)
 
 def balKeys (a b : State) : List (Addr × Denom) := a.bank.bal.map (·.1) ++ b.bank.bal.map (·.1)
 def supKeys (a b : State) : List Denom := a.bank.supply.map (·.1) ++ b.bank.supply.map (·.1)
@@ -97,9 +106,9 @@ def evmSameExcept (pre post : State) (ex : List (Nat × String)) : Bool :=
 
 /-- nothing observable changed -/
 def sameState (a b : State) : Bool :=
-  a.tokens == b.tokens && a.minUnits == b.minUnits && a.owners == b.owners && a.burned == b.burned &&
-  a.contracts == b.contracts && decide (a.params = b.params) && bankSame a b && a.nonce == b.nonce &&
-  evmSameExcept a b [] && a.fault == b.fault
+  tableSame a.tokens b.tokens && tableSame a.minUnits b.minUnits && tableSame a.owners b.owners &&
+  tableSame a.burned b.burned && tableSame a.contracts b.contracts && decide (a.params = b.params) &&
+  bankSame a b && a.nonce == b.nonce && evmSameExcept a b [] && a.fault == b.fault
 
 /-- the min unit in which fees are charged -/
 def feeUnit (s : State) : Option String := (getToken s s.params.feeDenom).map (·.minUnit)
